@@ -33,50 +33,11 @@ func isUpperByte(b int64) bool { return b >= 'A' && b <= 'Z' }
 func rulesC12(c *Ctx, r *Report) {
 	r.explain("Decides: (T-COMP) the complement table after init is populated exactly at aAcCgGtTnN, is an involution, pairs A-T, C-G, N-N and preserves case, for all 256 entries, and nothing outside init writes it; (Z-PANIC) complementByte returns the table entry for exactly those ten bytes and panics for the other 246, by a 256-point transfer function over its CFG; (FLOW-RC) every byte ReverseComplement appends / ReverseComplementString writes is complementByte of an element of the source; (SIB4) both loops run from len-1 down to 0 in steps of 1; (PURE/APPEND-ONLY) src is never written, dst is only appended to; CanonicalSubsequences never writes seq. (CS-*) CanonicalSubsequences computes rc as ReverseComplement(fresh, seq), loops i = 0..len(seq)-k with no other exit than the consumer's stop, yields once per iteration the smaller (by bytes.Compare on the two whole windows, all three outcomes) of seq[i:i+k] and rc[len(rc)-i-k:len(rc)-i]. Not decided: that indexing from len-1 down to 0 is the reversal as an equality of sequences; strand symmetry as an equality.")
 	r.assume("package initialisers run before any use; bytes are 8-bit")
-	funcs := c.moduleFuncs()
-	g := c.tableIn(c.role("sequtil.complement"), 0)
-	where := "sequtil.complementBytes"
-	if g == nil {
-		r.undecided("T-COMP", where, "anchor", "", "table variable not found")
+	g, tab, ok := rulesComplementTable(c, r)
+	if !ok {
 		return
 	}
-	t := c.evalSliceInit("sequtil", g)
-	if t.err != "" {
-		r.undecided("T-COMP", where, "init-shape", c.pos(g.Pos()), "cannot reconstruct the table from its initialiser: "+t.err)
-		return
-	}
-	tab := intTable(t)
-	pos := c.pos(g.Pos())
-	r.check(t.size >= 256, "T-COMP", where, "size", pos, fmt.Sprintf("table has %d entries: every byte value indexes it", t.size), fmt.Sprintf("table has %d entries but is indexed by a byte: values >= %d are out of range or aliased", t.size, t.size))
-	var populated []string
-	for i, v := range tab {
-		if v != 0 {
-			populated = append(populated, string(rune(i)))
-		}
-	}
-	want := strings.Split(rcLetters, "")
-	sort.Strings(want)
-	sort.Strings(populated)
-	r.check(strings.Join(populated, "") == strings.Join(want, ""), "T-COMP", where, "populated", pos,
-		"non-zero exactly at "+rcLetters, fmt.Sprintf("non-zero at %q, want exactly %q", strings.Join(populated, ""), strings.Join(want, "")))
-	pairs := map[byte]byte{'a': 't', 'c': 'g', 'g': 'c', 't': 'a', 'n': 'n', 'A': 'T', 'C': 'G', 'G': 'C', 'T': 'A', 'N': 'N'}
-	var bad []string
-	for i, v := range tab {
-		if v == 0 {
-			continue
-		}
-		if v < 0 || v >= int64(len(tab)) || tab[v] != int64(i) {
-			bad = append(bad, fmt.Sprintf("comp(comp(%s)) != %s", byteStr(i), byteStr(i)))
-		}
-		if isUpperByte(int64(i)) != isUpperByte(v) {
-			bad = append(bad, fmt.Sprintf("comp(%s)=%s changes case", byteStr(i), byteStr(int(v))))
-		}
-		if w, ok := pairs[byte(i)]; ok && int64(w) != v {
-			bad = append(bad, fmt.Sprintf("comp(%s)=%s, want %s", byteStr(i), byteStr(int(v)), byteStr(int(w))))
-		}
-	}
-	r.check(len(bad) == 0, "T-COMP", where, "involution+case+pairs", pos, "comp∘comp = id, case preserved, A-T C-G N-N on all populated entries", strings.Join(bad, "; "))
-	c.ruleWhoMayWrite(r, "T-WMW", g, "sequtil", c.initFuncsOf("sequtil"), funcs)
+	pairs := complementPairs
 
 	// Z-PANIC: accept/panic boundary of complementByte over all 256 bytes
 	cb := c.role("sequtil.complement")
@@ -324,4 +285,56 @@ func indexLawOf(s *symb, f *ssa.Function, idx ssa.Value) (*indexLaw, string) {
 		}
 	}
 	return law, ""
+}
+
+var complementPairs = map[byte]byte{'a': 't', 'c': 'g', 'g': 'c', 't': 'a', 'n': 'n', 'A': 'T', 'C': 'G', 'G': 'C', 'T': 'A', 'N': 'N'}
+
+// rulesComplementTable (T-COMP, T-WMW): the complement table, decided over all of its entries.
+func rulesComplementTable(c *Ctx, r *Report) (*ssa.Global, []int64, bool) {
+	funcs := c.moduleFuncs()
+	g := c.tableIn(c.role("sequtil.complement"), 0)
+	where := "sequtil.complementBytes"
+	if g == nil {
+		r.undecided("T-COMP", where, "anchor", "", "table variable not found")
+		return nil, nil, false
+	}
+	t := c.evalSliceInit("sequtil", g)
+	if t.err != "" {
+		r.undecided("T-COMP", where, "init-shape", c.pos(g.Pos()), "cannot reconstruct the table from its initialiser: "+t.err)
+		return nil, nil, false
+	}
+	tab := intTable(t)
+	pos := c.pos(g.Pos())
+	r.check(t.size >= 256, "T-COMP", where, "size", pos, fmt.Sprintf("table has %d entries: every byte value indexes it", t.size), fmt.Sprintf("table has %d entries but is indexed by a byte: values >= %d are out of range or aliased", t.size, t.size))
+	var populated []string
+	for i, v := range tab {
+		if v != 0 {
+			populated = append(populated, string(rune(i)))
+		}
+	}
+	want := strings.Split(rcLetters, "")
+	sort.Strings(want)
+	sort.Strings(populated)
+	r.check(strings.Join(populated, "") == strings.Join(want, ""), "T-COMP", where, "populated", pos,
+		"non-zero exactly at "+rcLetters, fmt.Sprintf("non-zero at %q, want exactly %q", strings.Join(populated, ""), strings.Join(want, "")))
+	pairs := complementPairs
+	var bad []string
+	for i, v := range tab {
+		if v == 0 {
+			continue
+		}
+		if v < 0 || v >= int64(len(tab)) || tab[v] != int64(i) {
+			bad = append(bad, fmt.Sprintf("comp(comp(%s)) != %s", byteStr(i), byteStr(i)))
+		}
+		if isUpperByte(int64(i)) != isUpperByte(v) {
+			bad = append(bad, fmt.Sprintf("comp(%s)=%s changes case", byteStr(i), byteStr(int(v))))
+		}
+		if w, ok := pairs[byte(i)]; ok && int64(w) != v {
+			bad = append(bad, fmt.Sprintf("comp(%s)=%s, want %s", byteStr(i), byteStr(int(v)), byteStr(int(w))))
+		}
+	}
+	r.check(len(bad) == 0, "T-COMP", where, "involution+case+pairs", pos, "comp∘comp = id, case preserved, A-T C-G N-N on all populated entries", strings.Join(bad, "; "))
+	c.ruleWhoMayWrite(r, "T-WMW", g, "sequtil", c.initFuncsOf("sequtil"), funcs)
+
+	return g, tab, true
 }
